@@ -30,7 +30,7 @@ const (
 
 func init() {
 	register("C15", "other", "T6 WhoMayCall, T2 Dominates, T5 ExactlyOneOf, T4 GuardedBy with the linear normaliser, T16b SiblingAgreement (acquire/release metric), T3 PostDominates (error exits), T20 CounterInvariant (forward data flow of index - call count)",
-		"Decides the structural conditions of the event processor's release/semaphore contract: the Released callback handed to the ordering buffer and the one process() calls are the same closure made in New, which releases dag.Metric{1, size of that event} exactly once on every path and forwards to the nil-guarded user callback saved before the overwrite; nobody else in the package releases or acquires; Enqueue acquires the Metric() of the very batch its tasks iterate, and Events.Metric is len / sum of e.Size(), i.e. the per-event release amounts add up to the acquired amount; every path of process() does exactly one of Released(event) / buffer.PushEvent(event); PushEvent is reached only for a passing check and only when NOT(Lamport > HighestLamport()+1+EventsBufferLimit.Num) (normalised), the other edge releases with an error; worker tasks are enqueued only after a successful Acquire and every exit of Enqueue on which a task was not enqueued gives the acquired amount back; Stop closes quit, terminates the semaphore and waits for the workers before it clears the buffer; batch order (C15.order): a check result carries its event's index in the batch, the ordered mode keeps a received result under its own pos, and at every process() call of the ordered mode the result handed on is the one at index N = number of process() calls the task has made so far (a linear invariant 'index - N = 0' established by a forward data-flow analysis over the task's CFG, independent of how the drain loop is written). New, Enqueue (with its task literals), process, Stop and Events.Metric are analysed as inlined views: the task bodies, the give-back, the acquire, the far-future test or the releasing closure may live in helper methods of the package (a helper that only those functions call is part of their view and is not a caller of its own); a named condition stands for the comparison it was defined as; a deferred call in Stop runs at the exit, in reverse order of the defer statements; Events.Metric may accumulate the size in a local that is copied into the result after the loop. NOT decided: the numeric balance of the semaphore over a history (needs the runtime amounts), and what happens to batches in flight when quit is closed (the property excludes them).",
+		"Decides the structural conditions of the event processor's release/semaphore contract: the Released callback handed to the ordering buffer and the one process() calls are the same closure made in New, which releases dag.Metric{1, size of that event} exactly once on every path and forwards to the nil-guarded user callback saved before the overwrite; nobody else in the package releases or acquires; Enqueue acquires the Metric() of the very batch its tasks iterate, and Events.Metric is len / sum of e.Size(), i.e. the per-event release amounts add up to the acquired amount; every path of process() does exactly one of Released(event) / buffer.PushEvent(event); PushEvent is reached only for a passing check and only when NOT(Lamport > HighestLamport()+1+EventsBufferLimit.Num) (normalised), the other edge releases with an error; worker tasks are enqueued only after a successful Acquire and every exit of Enqueue on which a task was not enqueued gives the acquired amount back; Stop closes quit, terminates the semaphore and waits for the workers before it clears the buffer; batch order (C15.order): a check result carries its event's index in the batch, the ordered mode keeps a received result under its own pos, and at every process() call of the ordered mode the result handed on is the one at index N = number of process() calls the task has made so far (a linear invariant 'index - N = 0' established by a forward data-flow analysis over the task's CFG, independent of how the drain loop is written). New, Enqueue (with its task literals), process, Stop and Events.Metric are analysed as inlined views: the task bodies, the give-back, the acquire, the far-future test or the releasing closure may live in helper methods of the package (a helper that only those functions call is part of their view and is not a caller of its own); a named condition stands for the comparison it was defined as; a deferred call in Stop runs at the exit, in reverse order of the defer statements; Events.Metric may accumulate the size in a local that is copied into the result after the loop; the arguments of Enqueue may be grouped in a record built once by a composite literal whose members are never assigned afterwards (a member read stands for the value the literal was built with), a task body may be a method called as the last statement of the task literal (its deferred calls then run at the same moment), and process() may receive the event and the check's error as two parameters or as one check result record (members e / err, never assigned after the record is built). The far-future comparison must not pass an operand through a narrowing or sign-changing integer conversion (int counts as 32 bits): the normalised comparison is only valid over the whole Lamport range when every conversion preserves values. NOT decided: the numeric balance of the semaphore over a history (needs the runtime amounts), and what happens to batches in flight when quit is closed (the property excludes them).",
 		[]string{"application callbacks are opaque", "the ordering buffer releases every pushed event exactly once (C14)", "DataSemaphore bookkeeping (C30)", "Lamport arithmetic does not wrap uint32"},
 		runC15)
 }
@@ -618,16 +618,12 @@ func runC15(c *core.Ctx) {
 			"the checker task does not hand every element of the acquired batch (with its own check result) on: an event acquired for is never processed or released")
 		nProc := 0
 		okProc := true
+		sig, sigOK := c15SigOf(c15View(c.Fn(c15Proc + ".process")))
+		c.Need(sigOK, "process receives the checked event and the check's error (two parameters, or one check result record)")
 		for _, f := range c15Funcs(p) {
 			for _, cs := range f.CallsTo(c15Proc + ".process") {
 				nProc++
-				if c15Root(f) != enq || len(cs.Call.Args) != 3 {
-					okProc = false
-					continue
-				}
-				r1, p1 := fieldPath(f, cs.Call.Args[1])
-				r2, p2 := fieldPath(f, cs.Call.Args[2])
-				if len(p1) != 1 || p1[0] != c15Pkg+".checkRes.e" || len(p2) != 1 || p2[0] != c15Pkg+".checkRes.err" || !c15SameRoot(f, r1, r2) {
+				if c15Root(f) != enq || sig.handed(f, cs.Call) == nil {
 					okProc = false
 				}
 			}
@@ -652,13 +648,8 @@ func runC15(c *core.Ctx) {
 
 	c.Clause("C15.process", func() {
 		proc := c15View(c.Fn(c15Proc + ".process"))
-		var ev *types.Var
-		for i := 0; i < 6; i++ {
-			if v := proc.Param(i); v != nil && c15TypeName(v.Type()) == "inter/dag.Event" {
-				ev = v
-			}
-		}
-		c.Need(ev != nil, "process has a dag.Event parameter")
+		sig, sigOK := c15SigOf(proc)
+		c.Need(sigOK, "process has a dag.Event parameter")
 		rel := proc.CallsTo(c15RelCB)
 		push := proc.CallsMatching(func(cs *core.CallSite) bool {
 			return cs.Name == c15Push && fieldNameOf(proc, cs.Recv()) == c15Proc+".buffer"
@@ -668,7 +659,7 @@ func runC15(c *core.Ctx) {
 		c.ExpectAtLeast("PushEvent sites in process", len(push), 1)
 		all := append(append([]*core.CallSite{}, rel...), push...)
 		for _, cs := range all {
-			ok := len(cs.Call.Args) >= 1 && varOf(proc, cs.Call.Args[0]) == ev
+			ok := len(cs.Call.Args) >= 1 && sig.isEv(cs.Call.Args[0])
 			c.Check(ok, "process|"+short(cs.Name)+" handles the event given", "provenance", cs.Pos(), "the call's first argument is process()'s event parameter", "process() releases or pushes a different event than the one it was given: that one is never reported")
 		}
 		okEvery := true
@@ -707,23 +698,13 @@ func runC15(c *core.Ctx) {
 
 	c.Clause("C15.future", func() {
 		proc := c15View(c.Fn(c15Proc + ".process"))
-		var ev, resErr *types.Var
-		for i := 0; i < 6; i++ {
-			if v := proc.Param(i); v != nil {
-				if c15TypeName(v.Type()) == "inter/dag.Event" {
-					ev = v
-				}
-				if v.Type().String() == "error" {
-					resErr = v
-				}
-			}
-		}
-		c.Need(ev != nil && resErr != nil, "process has event and error parameters")
+		sig, sigOK := c15SigOf(proc)
+		c.Need(sigOK, "process has event and error parameters")
 		recv := proc.Recv()
 		namer := func(e ast.Expr) string {
 			e = core.StripConv(proc.Info(), e)
 			if call := isCallTo(proc, e, c15EvLamp); call != nil {
-				if sel, ok := ast.Unparen(call.Fun).(*ast.SelectorExpr); ok && varOf(proc, sel.X) == ev {
+				if sel, ok := ast.Unparen(call.Fun).(*ast.SelectorExpr); ok && sig.isEv(sel.X) {
 					return "lamport"
 				}
 			}
@@ -740,10 +721,21 @@ func runC15(c *core.Ctx) {
 		// HighestLamport is read once per event (both uses see the same value)
 		within := core.ParseLinCmp("lamport - highest - num - 1 <= 0")
 		beyond := core.ParseLinCmp("highest + num - lamport + 2 <= 0")
+		var farConds []ast.Expr // the conditions recognised as the far-future test
 		isFact := func(want core.LinCmp) func(core.Fact) bool {
 			return func(ft core.Fact) bool {
 				lc, ok := c15LinFact(proc, ft, namer)
-				return ok && lc.Equal(want)
+				if ok && lc.Equal(want) {
+					known := false
+					for _, e := range farConds {
+						known = known || e == ft.Expr
+					}
+					if !known {
+						farConds = append(farConds, ft.Expr)
+					}
+					return true
+				}
+				return false
 			}
 		}
 		push := proc.CallsTo(c15Push)
@@ -753,7 +745,7 @@ func runC15(c *core.Ctx) {
 			c.Check(ok, "PushEvent only within HighestLamport+1+EventsBufferLimit.Num", "T4 GuardedBy (normalised)", ps.Pos(),
 				"buffer.PushEvent is reached only on the edge NOT(event.Lamport() > HighestLamport() + 1 + EventsBufferLimit.Num)",
 				"buffer.PushEvent is reachable without the edge lamport <= highest + 1 + limit.Num having been taken ("+proc.DescribePath(wit)+"): an event further ahead than the buffer limit is processed (or one exactly at the limit is dropped)")
-			ok2, wit2 := proc.GuardedBy(ps.Pt, varNilFact(proc, resErr, true))
+			ok2, wit2 := proc.GuardedBy(ps.Pt, sig.errNilFact(true))
 			c.Check(ok2, "PushEvent only for a passing check", "T4 GuardedBy", ps.Pos(),
 				"buffer.PushEvent is reached only on the resErr == nil edge", "an event whose parentless check failed can be pushed to the ordering buffer: "+proc.DescribePath(wit2))
 		}
@@ -765,17 +757,32 @@ func runC15(c *core.Ctx) {
 			}
 			if far, _ := proc.GuardedBy(rs.Pt, isFact(beyond)); far {
 				nFar++
-				c.Check(!core.IsNil(proc.Info(), rs.Call.Args[2]) && varOf(proc, rs.Call.Args[2]) != resErr, "far-future event released with an error", "T8 DecisionTable", rs.Pos(),
+				c.Check(!core.IsNil(proc.Info(), rs.Call.Args[2]) && !sig.isErr(rs.Call.Args[2]), "far-future event released with an error", "T8 DecisionTable", rs.Pos(),
 					"on the lamport > highest + 1 + limit.Num edge the event is released with a dedicated error", "a far-future event is released with a nil error (reported as processed)")
 			}
-			if failed, _ := proc.GuardedBy(rs.Pt, varNilFact(proc, resErr, false)); failed {
+			if failed, _ := proc.GuardedBy(rs.Pt, sig.errNilFact(false)); failed {
 				nFail++
-				c.Check(varOf(proc, rs.Call.Args[2]) == resErr, "failed check released with its error", "T8 DecisionTable", rs.Pos(),
+				c.Check(sig.isErr(rs.Call.Args[2]), "failed check released with its error", "T8 DecisionTable", rs.Pos(),
 					"on the resErr != nil edge the event is released with resErr", "an event whose check failed is not released with the check's error")
 			}
 		}
 		c.ExpectAtLeast("Released on the far-future edge", nFar, 1)
 		c.ExpectAtLeast("Released on the failed-check edge", nFail, 1)
+		// the normalised comparison above reads conversions as value preserving. The rule "more than limit+1
+		// above the highest known Lamport time" is about the whole Lamport range, so the test has to be
+		// evaluated in a type that represents every Lamport distance: no operand may pass through a
+		// narrowing or sign-changing conversion
+		for _, cond := range farConds {
+			conv := c15LossyConv(proc, cond, 0)
+			pos := cond.Pos()
+			what := ""
+			if conv != nil {
+				pos, what = conv.Pos(), exprStr(conv)
+			}
+			c.Check(conv == nil, "far-future test is evaluated over the whole Lamport range", "T4 GuardedBy (value range)", pos,
+				"no operand of the far-future comparison passes through a narrowing or sign-changing integer conversion",
+				"the far-future comparison in process() evaluates "+what+", a conversion that does not preserve every value of its operand: for a Lamport time far enough ahead (2^31 or more with a signed 32-bit distance) the converted value wraps, the test reads 'not too far' and the event is pushed to the ordering buffer and processed instead of being released as spilled")
+		}
 	})
 
 	c.Clause("C15.enqueue", func() {
